@@ -1271,6 +1271,17 @@ class FakedWBEMConnection(WBEMConnection):
                         "a CIMClassName, or a CIMInstanceName)",
                         type(objectname)))
 
+        def param_type(value):
+            """
+            CIM type of a parameter value; like WBEMConnection.InvokeMethod(),
+            this accepts class paths as reference values (which cimtype()
+            does not).
+            """
+            item = value[0] if isinstance(value, list) and value else value
+            if isinstance(item, CIMClassName):
+                return 'reference'
+            return cimtype(value)
+
         # Merge the Params and **params into a single no-case dictionary
         # of name: CIMParameter
         params_dict = NocaseDict()
@@ -1280,7 +1291,7 @@ class FakedWBEMConnection(WBEMConnection):
                     params_dict[param.name] = param
                 elif isinstance(param, tuple):
                     params_dict[param[0]] = CIMParameter(param[0],
-                                                         cimtype(param[1]),
+                                                         param_type(param[1]),
                                                          value=param[1])
                 else:
                     raise TypeError(
@@ -1293,7 +1304,7 @@ class FakedWBEMConnection(WBEMConnection):
         if params:
             for pname, pvalue in params.items():
                 params_dict[pname] = CIMParameter(
-                    pname, cimtype(pvalue), value=pvalue)
+                    pname, param_type(pvalue), value=pvalue)
 
         result = self._meth_InvokeMethod(methodname, localobject, params_dict)
 
